@@ -153,6 +153,41 @@ func (c *ctx) isolated(n int, stall time.Duration, f func(i int)) error {
 	return nil
 }
 
+// stderrTail keeps the last lines of a child's stderr that are not JSON log records.
+type stderrTail struct {
+	mu  sync.Mutex
+	buf []byte
+}
+
+func (t *stderrTail) Write(p []byte) (int, error) {
+	t.mu.Lock()
+	defer t.mu.Unlock()
+	t.buf = append(t.buf, p...)
+	if len(t.buf) > 1<<16 {
+		t.buf = t.buf[len(t.buf)-1<<15:]
+	}
+	return len(p), nil
+}
+
+func (t *stderrTail) String() string {
+	t.mu.Lock()
+	defer t.mu.Unlock()
+	var keep []string
+	for _, l := range strings.Split(string(t.buf), "\n") {
+		if l != "" && !strings.HasPrefix(l, "{\"level\"") {
+			keep = append(keep, l)
+		}
+	}
+	if len(keep) > 12 {
+		keep = keep[:12]
+	}
+	s := strings.Join(keep, " | ")
+	if len(s) > 1500 {
+		s = s[:1500]
+	}
+	return strings.ReplaceAll(s, "\t", " ")
+}
+
 // runChild runs cases [from,to) in a child; returns the trace lines received, the index of the
 // first case NOT completed, and why the child stopped early.
 func runChild(from, to int, stall time.Duration, stats map[string]int) ([]string, int, string) {
@@ -164,7 +199,9 @@ func runChild(from, to int, stall time.Duration, stats map[string]int) ([]string
 	if err != nil {
 		return nil, from, "died"
 	}
-	cmd.Stderr = nil
+	// the tail of the child's stderr (a panic, a fatal error of the runtime) is kept for the abort line
+	tail := &stderrTail{}
+	cmd.Stderr = tail
 	// a child never outlives its parent (the parent may be killed by the check's own timeout)
 	cmd.SysProcAttr = &syscall.SysProcAttr{Pdeathsig: syscall.SIGKILL}
 	if err := cmd.Start(); err != nil {
@@ -191,7 +228,7 @@ func runChild(from, to int, stall time.Duration, stats map[string]int) ([]string
 				if done >= to {
 					return lines, done, ""
 				}
-				return append(lines, cur...), done, "died"
+				return append(lines, cur...), done, "died ## " + tail.String()
 			}
 			if !timer.Stop() {
 				select {
